@@ -17,6 +17,56 @@ type monC13 struct {
 	issued []string   // e-mail verify token mailed for this browser's session
 	authed []bool     // model: this browser's session presented its mailed token
 	spentRec map[string]bool // recovery codes already used once (whatever storage still says)
+	// model of how each browser's session got its user: "full" only after a completed login
+	// as that user (all steps), "half" after a remember re-authentication; the session's
+	// half-auth key is not trusted to say so
+	level []string
+	who   []string
+}
+
+// trackLevel updates the authentication-level model from what the request proved.
+func (c *monC13) trackLevel(m *Machine, s *Step) {
+	op := s.Op
+	b := op.B % len(m.W.Jars)
+	if len(c.level) == 0 {
+		c.level, c.who = make([]string, len(m.W.Jars)), make([]string, len(m.W.Jars))
+	}
+	if op.K == "newsess" {
+		c.level[b], c.who[b] = "", ""
+		return
+	}
+	if s.Resp == nil {
+		return
+	}
+	r := s.Resp
+	uid := r.UID()
+	if uid == "" {
+		c.level[b], c.who[b] = "", ""
+		return
+	}
+	pendingSet := (r.SessAfter["totp_pending"] != "" && r.SessAfter["totp_pending"] != r.SessBefore["totp_pending"]) ||
+		(r.SessAfter["sms_pending"] != "" && r.SessAfter["sms_pending"] != r.SessBefore["sms_pending"])
+	okRedirect := r.Rec.HandlerErr == nil && r.Location != "" && !strings.HasPrefix(r.Location, "/notok") && !strings.Contains(r.Location, "/2fa/")
+	switch op.K {
+	case "login", "otplogin", "recend", "o2cb", "register":
+		if ok, _ := credTruth(m, s, uid); ok && !pendingSet && okRedirect && (op.K == "o2cb" || op.K == "recend" || uid == s.Pid) {
+			c.level[b], c.who[b] = "full", uid
+			return
+		}
+	case "totpvalidate", "smsvalidate":
+		if okRedirect && r.SessAfter[authboss.Session2FA] != "" && (r.UIDBefore() == "" || r.UIDBefore() == uid) && r.SessBefore[authboss.Session2FA] == "" || (okRedirect && r.UIDBefore() == "" && uid != "") {
+			c.level[b], c.who[b] = "full", uid
+			return
+		}
+	}
+	if r.UIDBefore() == "" && m.rotationOwner(s) == uid {
+		c.level[b], c.who[b] = "half", uid
+		return
+	}
+	if c.who[b] != uid {
+		// identity appeared some other way: not a completed login the model saw
+		c.level[b], c.who[b] = "half", uid
+	}
 }
 
 func (c *monC13) unusedRecovery(who string, pre harness.User, code string) bool {
@@ -39,8 +89,12 @@ func (c *monC13) Init(m *Machine) {
 var enrolOps = map[string]bool{"totpsetup": true, "totpconfirm": true, "smssetup": true, "smsconfirm": true}
 
 func (c *monC13) After(m *Machine, s *Step) *Violation {
+	defer c.trackLevel(m, s)
 	op := s.Op
 	b := op.B % len(m.W.Jars)
+	if len(c.level) == 0 {
+		c.level, c.who = make([]string, len(m.W.Jars)), make([]string, len(m.W.Jars))
+	}
 	if op.K == "newsess" {
 		c.issued[b], c.authed[b] = "", false
 		return nil
@@ -56,6 +110,9 @@ func (c *monC13) After(m *Machine, s *Step) *Violation {
 	}
 	uid := r.SessBefore[authboss.SessionKey]
 	_, half := r.SessBefore[authboss.SessionHalfAuthKey]
+	if uid != "" && !(c.level[b] == "full" && c.who[b] == uid) {
+		half = true // the model never saw this session complete a login as uid
+	}
 	full := uid != "" && !half
 	sessKind := "anonymous"
 	switch {
